@@ -21,7 +21,8 @@ props.prop(
                 'key-join fallback shape and memo-key completeness.',
     decides='that and/or/xor/not, the n-ary or and the six edit modes compute the named Boolean function of '
             'their operands\' masks, forward (data, view) unchanged, never mutate operands or shared masks, '
-            'and that memoisation keys on all arguments',
+            'and that memoisation keys on all arguments; that looking at a combined selection (attributes) never extends a '
+            'collection borrowed from an operand, and that re-assigning any field of a selection flushes every memoised mask',
     not_decided='that the masks of elementary selections are right (C04/C09), result shapes, selections '
                 'defined outside the package',
     assumptions=['numpy &,|,^,~ on boolean masks are elementwise', 'SubsetState subclasses outside glue/ are not seen'])
